@@ -379,6 +379,9 @@ class ProductLaplaceKernel(Kernel):
         self.eps = eps  # this one is for numerical stability
 
     def get_sample_batch_size(self, n: int, d: int, scalar_size: int = 4, mem_constant: float = 20) -> int:
+        if not torch.cuda.is_available():
+            # same CPU fallback as LaplaceKernel.get_sample_batch_size
+            return 5_000
         total_memory_possible = torch.cuda.get_device_properties(torch.device('cuda')).total_memory
         curr_mem_use = torch.cuda.memory_allocated()
         available_memory = total_memory_possible - curr_mem_use
